@@ -815,6 +815,8 @@ struct TreeGen<'a> {
     cs: usize,
     budget: usize,
     serial: u32,
+    /// no deleted / orphaned slots between the entries
+    no_junk: bool,
 }
 
 impl TreeGen<'_> {
@@ -909,7 +911,7 @@ impl TreeGen<'_> {
 
     fn junk(&mut self, sfn_only: bool) -> Vec<Junk> {
         let mut v = Vec::new();
-        if self.rng.chance(1, 4) {
+        if !self.no_junk && self.rng.chance(1, 4) {
             let n = self.rng.range(1, 3) as u32;
             let j = match self.rng.below(if sfn_only { 5 } else { 3 }) {
                 0 => {
@@ -1078,6 +1080,8 @@ fn count_clusters(kids: &[Node], cs: usize) -> usize {
 #[derive(Clone, Copy, Debug, PartialEq, Eq)]
 pub enum VolKind {
     Normal,
+    /// like `Normal`, but without deleted / orphaned slots (for scenarios that rename and remove freely afterwards)
+    Plain,
     /// FAT12 with 4079..=4084 / FAT16 with 65519..=65524 clusters of 512 bytes, nearly full, with file chains and a
     /// directory chain threaded through the topmost clusters (numbers >= 0xFF0 / 0xFFF0 are ordinary links there)
     Max,
@@ -1116,7 +1120,7 @@ fn plain_file(name: &str, content: Vec<u8>, t: Stamps) -> Node {
 
 pub fn random_volume_kind(rng: &mut SplitMix64, bits: u8, kind: VolKind) -> Built {
     let mut fr: BTreeMap<String, u64> = BTreeMap::new();
-    let special = kind != VolKind::Normal;
+    let special = !matches!(kind, VolKind::Normal | VolKind::Plain);
     let bps = if special { 512 } else { *rng.pick(&[512u32, 512, 1024, 2048, 4096]) };
     let spc = if special { 1 } else { *rng.pick(&[1u32, 1, 2, 4, 8, 16, 32, 64]) };
     if special {
@@ -1139,6 +1143,7 @@ pub fn random_volume_kind(rng: &mut SplitMix64, bits: u8, kind: VolKind) -> Buil
             cs,
             budget: 48 * 1024,
             serial: 0,
+            no_junk: kind == VolKind::Plain,
         };
         tg.dir(0, 7)
     };
